@@ -3,6 +3,8 @@
 
   tools/selftest.py reformat      every check on a scratch copy of /repo whose sources were re-printed with ast.unparse
                                   (comments, quotes, line joins, blank lines change; behaviour does not): all must exit 0
+  tools/selftest.py rename        every check on a scratch copy in which every local variable of every function is renamed: no check may
+                                  exit 1 (exit 2 = undecided is tolerated and listed)
   tools/selftest.py reverts       for every `fix:` commit of /repo: scratch copy with that commit reverted; the property the
                                   fix is recorded under must report a VIOLATION again
   tools/selftest.py seeds         = tools/run_seed.py --all
@@ -65,6 +67,119 @@ def reformat():
     return 1 if bad else 0
 
 
+def _rename_locals_in(tree, every=1):
+    """behaviour-preserving: every local variable of every outermost function gets the suffix _v"""
+    class Outer(ast.NodeVisitor):
+        def handle(self, f):
+            params = set()
+            stored = set()
+            banned = set()
+            for n in ast.walk(f):
+                if isinstance(n, (ast.FunctionDef, ast.AsyncFunctionDef, ast.Lambda)):
+                    a = n.args
+                    params |= set(x.arg for x in a.posonlyargs + a.args + a.kwonlyargs)
+                    if a.vararg:
+                        params.add(a.vararg.arg)
+                    if a.kwarg:
+                        params.add(a.kwarg.arg)
+                    if not isinstance(n, ast.Lambda) and n is not f:
+                        banned.add(n.name)
+                elif isinstance(n, ast.ClassDef):
+                    banned.add(n.name)
+                elif isinstance(n, (ast.Global, ast.Nonlocal)):
+                    banned |= set(n.names)
+                elif isinstance(n, ast.Name) and isinstance(n.ctx, (ast.Store, ast.Del)):
+                    stored.add(n.id)
+                elif isinstance(n, ast.ExceptHandler) and n.name:
+                    stored.add(n.name)
+                elif isinstance(n, (ast.Import, ast.ImportFrom)):
+                    banned |= set((al.asname or al.name).split('.')[0] for al in n.names)
+            ren = stored - params - banned
+            if every > 1:
+                ren = set(x for i, x in enumerate(sorted(ren)) if i % every == 0)
+            for n in ast.walk(f):
+                if isinstance(n, ast.Name) and n.id in ren:
+                    n.id = n.id + '_v'
+                elif isinstance(n, ast.ExceptHandler) and n.name in ren:
+                    n.name = n.name + '_v'
+            return len(ren)
+
+        def __init__(self):
+            self.n = 0
+
+        def visit_FunctionDef(self, f):
+            self.n += self.handle(f)      # do not descend: nested functions were handled with their outer function
+        visit_AsyncFunctionDef = visit_FunctionDef
+    o = Outer()
+    o.visit(tree)
+    return o.n
+
+
+def rename_tree(sc, every=1):
+    n = 0
+    for dp, dn, fn in os.walk(sc + '/bitcoinlib'):
+        for f in fn:
+            if f.endswith('.py'):
+                p = os.path.join(dp, f)
+                tree = ast.parse(open(p, encoding='utf-8').read())
+                n += _rename_locals_in(tree, every)
+                open(p, 'w', encoding='utf-8').write(ast.unparse(tree) + '\n')
+    return n
+
+
+def seeds_renamed(every=1):
+    """every seeded change with all (or every k-th) local renamed on top: the checks that report it on the plain copy must still report it"""
+    rc = 0
+    for d in sorted(glob.glob(os.path.join(ROOT, 'seeded', '*'))):
+        name = os.path.basename(d)
+        if os.path.exists(os.path.join(d, 'meta.json')) and 'superseded_by' in json.load(open(os.path.join(d, 'meta.json'))):
+            continue
+        sc = copy_repo('sr_' + name.replace('-', '_'))
+        p = subprocess.run(['git', 'apply', os.path.join(d, 'patch.diff')], cwd=sc, stdout=subprocess.PIPE, stderr=subprocess.STDOUT)
+        if p.returncode:
+            print(name, 'patch does not apply')
+            shutil.rmtree(sc, ignore_errors=True)
+            continue
+        plain = run_checks(sc)
+        want = sorted(k for k, v in plain.items() if v[0] == 1)
+        rename_tree(sc, every)
+        res = run_checks(sc, only=want)
+        got = sorted(k for k, v in res.items() if v[0] == 1)
+        extra = ''
+        if got != want:
+            rc = 1
+            extra = '  <-- LOST after renaming: %s' % [(k, res[k][0]) for k in want if k not in got]
+        print('%-8s plain=%s renamed=%s%s' % (name, want, got, extra))
+        shutil.rmtree(sc, ignore_errors=True)
+    return rc
+
+
+def rename(every=1):
+    sc = copy_repo('rename')
+    n = 0
+    for dp, dn, fn in os.walk(sc + '/bitcoinlib'):
+        for f in fn:
+            if f.endswith('.py'):
+                p = os.path.join(dp, f)
+                tree = ast.parse(open(p, encoding='utf-8').read())
+                n += _rename_locals_in(tree, every)
+                open(p, 'w', encoding='utf-8').write(ast.unparse(tree) + '\n')
+    # the renamed package must still compile
+    import compileall
+    ok = compileall.compile_dir(sc + '/bitcoinlib', quiet=2, force=True)
+    res = run_checks(sc)
+    alarms = {k: v for k, v in res.items() if v[0] == 1}
+    undec = {k: v for k, v in res.items() if v[0] == 2}
+    print('renamed %d local variables (compiles: %s); checks: %d silent, %d undecided (exit 2), %d FALSE ALARMS (exit 1)' % (n, bool(ok), len(res) - len(alarms) - len(undec), len(undec), len(alarms)))
+    for k, v in list(alarms.items()) + list(undec.items()):
+        print(' ', k, 'exit', v[0])
+        for l in v[1]:
+            print('     ', l[:300])
+    if os.environ.get('KEEP_SC') != '1':
+        shutil.rmtree(sc, ignore_errors=True)
+    return 1 if alarms else 0
+
+
 def reverts():
     kf = json.load(open(os.path.join(ROOT, 'known_findings.json')))
     log = subprocess.check_output(['git', '-C', '/repo', 'log', '--format=%h %s']).decode().split('\n')
@@ -98,6 +213,10 @@ if __name__ == '__main__':
     what = sys.argv[1] if len(sys.argv) > 1 else 'reformat'
     if what == 'reformat':
         sys.exit(reformat())
+    if what == 'rename':
+        sys.exit(rename(int(sys.argv[2]) if len(sys.argv) > 2 else 1))
+    if what == 'seeds-renamed':
+        sys.exit(seeds_renamed(int(sys.argv[2]) if len(sys.argv) > 2 else 1))
     if what == 'reverts':
         sys.exit(reverts())
     if what == 'seeds':
